@@ -1,5 +1,6 @@
 """M3 (writer side): PointCloudWriter::{new, add_point, write_buffer_to_disk, finalize} — real MIR over the contract-level writer.
 C01 (binary leg), C02 (section header / packet layout), C10 (rejections), C14 (bounds)."""
+import os
 import z3
 
 from . import dm
@@ -439,6 +440,8 @@ XYZ_DOUBLE_PROTO = [("CartesianX", ("Double",)), ("CartesianY", ("Double",)), ("
 SPH_DOUBLE_PROTO = [("SphericalRange", ("Double",)), ("SphericalAzimuth", ("Double",)), ("SphericalElevation", ("Double",))]
 IDX_PROTO = [("CartesianX", ("Integer", 0, 0)), ("CartesianY", ("Integer", 0, 0)), ("CartesianZ", ("Integer", 0, 0)),
              ("RowIndex", ("Integer", -7, 1000)), ("ColumnIndex", ("Integer", -(1 << 62), (1 << 62))), ("ReturnIndex", ("Integer", 0, 3)), ("ReturnCount", ("Integer", 0, 3))]
+IDX8_PROTO = [("CartesianX", ("Integer", 0, 0)), ("CartesianY", ("Integer", 0, 0)), ("CartesianZ", ("Integer", 0, 0)),
+              ("RowIndex", ("Integer", 0, 255)), ("ColumnIndex", ("Integer", -128, 127)), ("ReturnIndex", ("Integer", 0, 255)), ("ReturnCount", ("Integer", 0, 255))]
 XYZ_SCALED_PROTO = [("CartesianX", ("ScaledInteger", -1000, 1000, 0.25, -3.0)), ("CartesianY", ("Single",)), ("CartesianZ", ("Double",))]
 
 
@@ -467,7 +470,9 @@ def bounds_scenarios(tier="quick"):
     combos = [("spherical + row/column/return index", SPH_IDX_PROTO, 1), ("xyz scaled/single/double", XYZ_SCALED_PROTO, 1)]
     # two points: a bound that tracks the wrong extreme (min/max swapped for ONE attribute) is invisible with a single point
     combos.append(("spherical double", SPH_DOUBLE_PROTO, 2))
-    # (a two-point index-group scenario over IDX_PROTO did not finish within 6 min and is not registered)
+    # (a two-point index-group scenario over IDX_PROTO, widths 10/63/2/2, did not finish within 6 min; byte-wide ranges do: 48 s)
+    if True:
+        combos.append(("row/column/return index (8-bit)", IDX8_PROTO, 2))
     if tier != "quick":
         # two points: min/max over the points, every ordering a symbolic path (slow: FP comparisons in every feasibility query)
         combos.append(("xyz double", XYZ_DOUBLE_PROTO, 2))
